@@ -126,7 +126,7 @@ def decl(c):
     D = c["D"]
     named = c["named"]
     n = c["nfields"]
-    attr = f"#[{ATTR[D]}({vlib.rust_str(literal(c))}{args_text(c)})]\n" if c["hasAttr"] else ""
+    attr = f"#[{ATTR[D]}({vlib.rust_lit(literal(c))}{args_text(c)})]\n" if c["hasAttr"] else ""
     if c.get("as_variant"):
         # the same attribute on an enum variant (display.rs / debug.rs take a different route for enums)
         if named:
